@@ -83,6 +83,29 @@ def gen_datetime(rng, aligned):
     return ['datetime', w, tz]
 
 
+EXACT_MS = 2 ** 44 - 4 * 86400 * 1000      # |instant| below 2^44 ms: the core float expression truncates the true value
+
+
+def gen_datetime_exact_range(rng):
+    """any microsecond (sub-millisecond digits included), instant within 2^44 ms of the epoch, half of them before 1970"""
+    tz = rng.choice([None, None, 'dst', 'west', 'fixed'])
+    r = rng.random()
+    if r < 0.35:
+        w = -rng.randrange(1, 10 ** rng.randrange(1, 17))                        # just before / long before the epoch
+    elif r < 0.5:
+        w = -rng.randrange(0, 10 ** 7) * 10 ** 6 - rng.choice([1, 999, 1000, 1001, 500500, 999999, 999001])
+    elif r < 0.7:
+        w = rng.randrange(-EXACT_MS * 1000, EXACT_MS * 1000)
+    else:
+        w = rng.randrange(0, 4 * 10 ** 9) * 10 ** 6 + rng.choice([1, 999, 1001, 999999, 123456, 500])
+    w = max(-EXACT_MS * 1000, min(EXACT_MS * 1000, w))
+    return ['datetime', w, tz]
+
+
+def trunc_ms(us):
+    return us // 1000 if us >= 0 else -(-us // 1000)
+
+
 def gen_float(rng, single, key):
     r = rng.random()
     if not key and r < 0.08:
@@ -128,9 +151,15 @@ def gen_val(rng, spec, key=False):
     if k in ('Float', 'Double'):
         return gen_float(rng, k == 'Float', key)
     if k == 'Decimal':
-        if not key and rng.random() < 0.2:
-            return ['int', rng.choice(I_POOL)]
-        digits = str(rng.choice([0, 1, 10, 110, 12345, 10 ** 25 + 7, rng.randrange(0, 10 ** 12)]))
+        long_coeff = rng.choice([10 ** 28 + 1, 10 ** 29 - 1, 2 ** 128, 31415926535897932384626433832795028841971693993751,
+                                 rng.randrange(10 ** 28, 10 ** rng.randrange(29, 61))])
+        r = rng.random()
+        if not key and r < 0.2:
+            return ['int', rng.choice(I_POOL + [long_coeff, -long_coeff])]
+        if not key and r < 0.3:
+            return ['numstr', '%s%d' % (rng.choice(['', '-']), long_coeff) if rng.random() < 0.5 else
+                    '%s%d.%d' % (rng.choice(['', '-']), rng.randrange(0, 10 ** 20), rng.randrange(0, 10 ** 15))]
+        digits = str(rng.choice([0, 1, 10, 110, 12345, 10 ** 25 + 7, rng.randrange(0, 10 ** 12), long_coeff, long_coeff]))
         return ['decimal', '%s%sE%d' % (rng.choice(['', '-']), digits, rng.randrange(-30, 31))]
     if k in ('UUID', 'TimeUUID'):
         return ['uuid', rng.choice([0, 2 ** 128 - 1, rng.getrandbits(128)])]
@@ -152,10 +181,12 @@ def gen_val(rng, spec, key=False):
     if k == 'DateTime':
         if not key and rng.random() < 0.1:
             return ['date', rng.choice([0, -1, -719162, 2932896, rng.randrange(-719162, 2932897)])]
-        d = gen_datetime(rng, True)
-        if key:
-            d[2] = None
-        return d
+        if key or rng.random() < 0.5:
+            d = gen_datetime(rng, True)
+            if key:
+                d[2] = None
+            return d
+        return gen_datetime_exact_range(rng)
     if k == 'Duration':
         return ['duration', rng.choice([0, 1, -1, 2 ** 31 - 1, rng.randrange(-1000, 1000)]),
                 rng.choice([0, 1, -1, rng.randrange(-10 ** 5, 10 ** 5)]),
@@ -246,12 +277,14 @@ def oracle(colspec, valspec, ev, valid=True):
         return fails
     if name == 'DateTime' and valspec[0] == 'datetime':
         us = exact_ms(ev['v'])
-        want = us // 1000
+        want = trunc_ms(us)                       # sub-millisecond digits dropped toward zero, as the core path does
         got = ev['x']
         kind = 'aware' if valspec[2] else 'naive'
         if not (isinstance(got, int) and got == want):
-            fails.append(('DateTime.to_database.%s.not-exact-ms' % kind,
-                          'DateTime.to_database(%r) = %r, exact instant is %d us (floor ms %d)' % (ev['v'], got, us, want), want, got))
+            why = 'not-exact-ms' if us % 1000 == 0 else 'sub-ms-not-truncated-toward-zero'
+            fails.append(('DateTime.to_database.%s.%s' % (kind, why),
+                          'DateTime.to_database(%r) = %r, exact instant is %d us: the core driver sends %d ms' % (ev['v'], got, us, want),
+                          want, got))
             return fails
     if ev['prep'] is None or ev['den'] is None:
         fails.append(('%s.unencodable.%s' % (name, ev.get('den_exc') or ev.get('prep_exc')),
@@ -324,10 +357,12 @@ def run(ctx):
               'Python datetime/timedelta arithmetic (wall-clock microseconds of a datetime are computed by the harness with integer arithmetic)',
               '`denote` stands for CQL literal rendering + server parsing of the to_database output; tied to cqltypes.serialize of that output')
     ctx.assume('valid values: the natural Python types of each CQL type (DESIGN 4.0 reading); float->Decimal and int->Date coercions excluded',
-               'datetimes compared with the core encoding only on whole-millisecond instants; any other datetime must store the floor or ceiling millisecond of its instant',
+               'datetimes are compared with the core encoding on whole-millisecond instants everywhere and on every datetime within 2^44 ms of the epoch '
+               '(where the core float expression truncates the true value toward zero); beyond that a sub-millisecond datetime must store the floor or ceiling millisecond',
                'tzinfo.utcoffset returns an offset (never None) and is a function of the wall clock')
     ctx.rule = ('corpus first; then per random column spec (depth<=2, all 20 scalar classes + List/Set/Map/Tuple/UDT) valid values from '
-                'boundary pools + random; datetimes over years 1..9999, naive and in 3 harness zones (two with DST); separate malformed '
+                'boundary pools + random (decimals/ints/numeric strings up to 60 digits, also under a lowered decimal context precision); datetimes over '
+                'years 1..9999, naive and in 3 harness zones (two with DST), sub-millisecond and pre-1970 values within 2^44 ms compared with the core encoding; separate malformed '
                 'stream; non-trivial = distinct (column, value) whose to_database output differs from the input object or is a container')
     cases, meta = [], []
 
@@ -366,6 +401,16 @@ def run(ctx):
         one(colspec, gen_val(rng, colspec), True, 'valid')
     for i in range(n // 3):
         one(['DateTime'], gen_datetime(rng, False), False, 'submilli')
+    # an application may lower the decimal context precision: conversion must not depend on it
+    import decimal
+    saved_prec = decimal.getcontext().prec
+    decimal.getcontext().prec = 5
+    try:
+        for i in range(n // 15):
+            colspec = rng.choice([['Decimal'], ['List', ['Decimal']], ['Map', ['Text'], ['Decimal']], ['Tuple', ['Decimal'], ['Integer']]])
+            one(colspec, gen_val(rng, colspec), True, 'low-decimal-precision')
+    finally:
+        decimal.getcontext().prec = saved_prec
     for colspec, valspec in MALFORMED:
         one(colspec, valspec, False, 'malformed')
     for i in range(n // 10):
